@@ -347,7 +347,8 @@ class ExprMixin:
                 # python floor division: SMT div is euclidean; the two agree for a positive divisor
                 self.check(st, y > 0, f"safety[{self.site(st, 'div')}]::positive_divisor_modelled", 'safety')
                 return VInt(x / y)
-            raise Unsupported("floor division on reals")
+            # float // float = floor of the real quotient (float-as-real); z3's ToInt is floor
+            return VReal(z3.ToReal(z3.ToInt(x / y)))
         if isinstance(op, ast.Mod):
             self.check(st, y != 0, f"safety[{self.site(st, 'div')}]::nonzero_divisor", 'safety')
             if mk is VInt:
@@ -500,7 +501,10 @@ class ExprMixin:
         return res
 
     def contains(self, st, container, x) -> z3.BoolRef:
-        """x in container (Python semantics: identity or ==), container a list"""
+        """x in container (Python semantics: identity or ==), container a list or a membership-only set"""
+        from .builtins_ import VSetOf
+        if isinstance(container, VSetOf):
+            container = container.inner
         if isinstance(container, (VListRef, VList)):
             l = st.lst(container)
             k = z3.Int(fresh_name('ink'))
